@@ -95,6 +95,7 @@ type Point struct {
 	Chosen     int  // option taken
 	CurEnabled bool // (KindSched) the running thread was among the options => alternatives are preemptions
 	HasAdv     bool // (KindSched) last option is "advance the clock to the next timer"
+	Delay      bool // (KindSched) delay-bounded mode: every non-default option costs one deviation
 	Sig        uint32
 	Label      string
 }
@@ -106,7 +107,7 @@ func (p Point) Cost(alt int) int {
 		if p.HasAdv && alt == p.N-1 {
 			return 1
 		}
-		if p.CurEnabled && alt != 0 {
+		if (p.CurEnabled || p.Delay) && alt != 0 {
 			return 1
 		}
 		return 0
@@ -120,6 +121,10 @@ func (p Point) Cost(alt int) int {
 }
 
 type Config struct {
+	// DelayBounded: also count as a deviation the choice of a non-default thread when the running thread cannot
+	// continue (delay-bounded scheduling). Without it such switches are free and all orders of simultaneously enabled
+	// threads are explored, which is exponential in the number of concurrently blocked threads.
+	DelayBounded   bool
 	ClockDeviation bool
 	MaxSteps       int           // 0 = default 200000
 	MaxVirtual     time.Duration // 0 = default 1h
@@ -495,7 +500,7 @@ func (s *Sched) reschedule(t *Thread) {
 		}
 		c := 0
 		if total > 1 {
-			c = s.choose(Point{Kind: KindSched, N: total, CurEnabled: curEn, HasAdv: adv, Sig: sigOf(KindSched, ids[:n], adv), Label: t.label})
+			c = s.choose(Point{Kind: KindSched, N: total, CurEnabled: curEn, HasAdv: adv, Delay: s.cfg.DelayBounded, Sig: sigOf(KindSched, ids[:n], adv), Label: t.label})
 			if c < 0 {
 				s.park(t)
 				return
